@@ -20,7 +20,7 @@ CONFIG = {
             "(default D, --skip_brute S, --all_lower L, both SL); oracle: S = D minus Markov pre-terminals with probabilities / (1-P(M)), "
             "same order up to permutation inside equal-probability runs, S == D when there is no M line, S empty when M is alone and "
             "nothing on stdout; L / SL = reference language with every capitalisation variable collapsed to one all-lower mask of "
-            "probability 1; then a quit at a drawn pop in a flagged process followed by --load WITHOUT flags in a new process image "
+            "probability 1; then a quit at a drawn pop in a flagged process followed by --load in a new process image WITHOUT flags or with flags contradicting the saved ones "
             "(flags must come from S.sav); non-trivial = ruleset has an M line together with other structures, or a capitalisation "
             "variable with >= 2 groups; distinct = distinct (ruleset, cut)",
     "components": {
